@@ -505,9 +505,10 @@ def fresh_copies(c, res, src, clsname, setlike):
       (lambda x: z3.And(h.len(v(x)) == h0.len(ref(h0.dget(s, x))),
                         h.eltarr(v(x)) == h0.eltarr(ref(h0.dget(s, x)))))
   return z3.And(
-      is_VRef(res), r >= h0.alloc, cls_is(h.cls(r), clsname),
+      is_VRef(res), r >= h0.alloc, r < h.alloc, cls_is(h.cls(r), clsname),
       FA([k], h.has(r, k) == h0.has(s, k), patterns=[h.has(r, k)]),
-      FA([k], z3.Implies(h.has(r, k), z3.And(is_VRef(h.dget(r, k)), v(k) >= h0.alloc, v(k) != r,
+      FA([k], z3.Implies(h.has(r, k), z3.And(is_VRef(h.dget(r, k)), v(k) >= h0.alloc, v(k) < h.alloc,
+                                             v(k) != r, cls_is(h.cls(v(k)), 'set' if setlike else 'list'),
                                              same(k))),
          patterns=[h.dget(r, k)]),
       FA([k, k2], z3.Implies(z3.And(h.has(r, k), h.has(r, k2), k != k2), v(k) != v(k2)),
@@ -744,12 +745,13 @@ def _oa_post(c):
                             _oa_flags(c))
   return z3.And(
       is_VRef(c.result), r >= h0.alloc, cls_is(h.cls(r), 'dict'),
-      FA([k], h.has(r, k) == z3.And(full(k), z3.Or(inc_pos, is_VStr(k))), patterns=[h.has(r, k)]),
+      FA([k], h.has(r, k) == z3.And(full(k), z3.Or(inc_pos, is_VStr(k))),
+         patterns=[h.has(r, k), has0[k]]),
       FA([k], z3.Implies(h.has(r, k), h.dget(r, k) == oa_value(g, has0, val0, k)),
          patterns=[h.dget(r, k)]),
       # default flags: exactly the argument store
       z3.Implies(z3.And(inc_vk, z3.Not(inc_def), z3.Not(inc_unset), inc_pos),
-                 z3.And(FA([k], h.has(r, k) == has0[k], patterns=[h.has(r, k)]),
+                 z3.And(FA([k], h.has(r, k) == has0[k], patterns=[h.has(r, k), has0[k]]),
                         FA([k], z3.Implies(has0[k], h.dget(r, k) == val0[k]), patterns=[h.dget(r, k)]))))
 
 
